@@ -79,7 +79,7 @@ func c03RunE1(c *core.Ctx, sc *c03Scenario) {
 		sc.Nodes = 3
 	}
 	if err := s.Boot(sc.Nodes, sc.Knobs, nil); err != nil {
-		c.Discard("boot-failed: " + err.Error())
+		c.Discard("boot-failed: " + clean(c, err.Error()))
 		return
 	}
 	if !execOn(s, s.Leader(), tblSchema) {
@@ -149,18 +149,18 @@ func c03RunE1(c *core.Ctx, sc *c03Scenario) {
 			if s.PendingTasks() > 0 {
 				c.Probe("crash_with_inflight_write")
 			}
-			c.Log.Add("%d fault crash n%d", s.StepN, tgt)
+			logf(c, "%d fault crash n%d", s.StepN, tgt)
 			if err := s.Crash(tgt); err != nil {
-				c.Discard("crash-failed: " + err.Error())
+				c.Discard("crash-failed: " + clean(c, err.Error()))
 				return
 			}
 			downNodes = append(downNodes, tgt)
 		case "restart":
 			for _, d := range downNodes {
-				c.Log.Add("%d fault restart n%d", s.StepN, d)
+				logf(c, "%d fault restart n%d", s.StepN, d)
 				sk := storeStat("num_restores_start_skipped")
 				if err := s.Restart(d); err != nil {
-					c.Violate("restart-failed", "node %d failed to restart after crash: %v", d, err)
+					violate(c, "restart-failed", "node %d failed to restart after crash: %v", d, err)
 					return
 				}
 				if storeStat("num_restores_start_skipped") > sk {
@@ -187,7 +187,7 @@ func c03RunE1(c *core.Ctx, sc *c03Scenario) {
 	}
 	for _, d := range downNodes {
 		if err := s.Restart(d); err != nil {
-			c.Violate("restart-failed", "node %d failed to restart after crash: %v", d, err)
+			violate(c, "restart-failed", "node %d failed to restart after crash: %v", d, err)
 			return
 		}
 	}
@@ -241,12 +241,12 @@ func c03RunE1(c *core.Ctx, sc *c03Scenario) {
 	ldr = s.Leader()
 	dl, err := s.DumpNode(ldr)
 	if err != nil {
-		c.Violate("dump-failed", "leader database unreadable: %v", err)
+		violate(c, "dump-failed", "leader database unreadable: %v", err)
 		return
 	}
 	rows, _, err := parseT(dl)
 	if err != nil {
-		c.Discard("harness: " + err.Error())
+		c.Discard("harness: " + clean(c, err.Error()))
 		return
 	}
 	cnt := map[int64]int{}
@@ -260,20 +260,21 @@ func c03RunE1(c *core.Ctx, sc *c03Scenario) {
 		if w.Outcome == "ok" {
 			nOK++
 			if cnt[w.V] == 0 {
-				c.Violate("acked-write-lost", "acknowledged write v=%d is not in the leader's database after crash/restart of a minority", w.V)
+				violate(c, "acked-write-lost", "acknowledged write v=%d is not in the leader's database after crash/restart of a minority", w.V)
 				return
 			}
 		} else {
 			nUnk++
 		}
 	}
-	for v, k := range cnt {
+	for _, r := range rows {
+		v, k := r.V, cnt[r.V]
 		if k > 1 {
-			c.Violate("write-applied-twice", "value v=%d appears %d times", v, k)
+			violate(c, "write-applied-twice", "value v=%d appears %d times", v, k)
 			return
 		}
 		if known[v] == nil {
-			c.Violate("phantom-write", "value v=%d was never written", v)
+			violate(c, "phantom-write", "value v=%d was never written", v)
 			return
 		}
 	}
@@ -283,11 +284,11 @@ func c03RunE1(c *core.Ctx, sc *c03Scenario) {
 		}
 		d, err := s.DumpNode(n)
 		if err != nil {
-			c.Violate("dump-failed", "database of %s unreadable: %v", n.ID, err)
+			violate(c, "dump-failed", "database of %s unreadable: %v", n.ID, err)
 			return
 		}
 		if d != dl {
-			c.Violate("replica-state-differs", "%s (starts=%d) and leader %s differ at the same applied index: %s", n.ID, n.Starts, ldr.ID, sim.FirstDiff(d, dl))
+			violate(c, "replica-state-differs", "%s (starts=%d) and leader %s differ at the same applied index: %s", n.ID, n.Starts, ldr.ID, sim.FirstDiff(d, dl))
 			return
 		}
 	}
